@@ -417,6 +417,67 @@ def run_top(ctx, replay):
                           failing_input=False, broken="correspondence chk_top (model/SyncHB.v get_top_list)")
 
 
+# ------------------------------------------------------------------ geometric rung systems
+GEOM_SIG = dict(component="SynchronousHyperbandRungSystem.geometric", defect="duplicate_last_rung_level")
+
+
+def rung_system_problem(rss):
+    """what SynchronousHyperbandBracketManager documents about bracket_rungs; None if fine"""
+    if not rss or not rss[0]:
+        return "empty"
+    for off, rs in enumerate(rss):
+        if len(rs) != len(rss[0]) - off:
+            return "bracket %d has %d rungs, expected %d" % (off, len(rs), len(rss[0]) - off)
+        sizes, levels = [x[0] for x in rs], [x[1] for x in rs]
+        if any(int(x) != x or x < 1 for x in sizes + levels):
+            return "bracket %d: sizes/levels not positive integers" % off
+        if any(a >= b for a, b in zip(levels, levels[1:])):
+            return "bracket %d: rung levels %s are not strictly increasing" % (off, levels)
+        if any(a <= b for a, b in zip(sizes, sizes[1:])):
+            return "bracket %d: rung sizes %s are not strictly decreasing" % (off, sizes)
+    return None
+
+
+def run_geom(ctx, replay):
+    """The public factory for geometric rung systems must produce, for legal arguments, a system that the
+    bracket manager / scheduler constructors accept (C05 quantifies over geometric and custom systems)."""
+    from syne_tune.optimizer.schedulers.synchronous.hyperband_rung_system import SynchronousHyperbandRungSystem
+    from syne_tune.optimizer.schedulers.synchronous.hyperband_bracket_manager import SynchronousHyperbandBracketManager
+    rng = ctx.rng
+    if replay and replay.get("kind") == "geom":
+        specs = [replay["spec"]]
+    elif replay:
+        return
+    else:
+        specs = []
+        for _ in range(ctx.n(300, 5000)):
+            mn = rng.choice([1, 1, 1, 2, 3, 5])
+            specs.append(dict(min_resource=mn, max_resource=mn + rng.randint(1, 80),
+                              reduction_factor=rng.choice([2, 3, 4, 2.5, 3.5, 2.2, 2.4, 3.3, 4.7, 2 + rng.random() * 3]),
+                              num_brackets=rng.choice([None, None, 1, 2, 3])))
+    for sp in specs:
+        rss = SynchronousHyperbandRungSystem.geometric(sp["min_resource"], sp["max_resource"], sp["reduction_factor"],
+                                                       sp["num_brackets"])
+        rss = [[(x[0], x[1]) for x in rs] for rs in rss]
+        prob = rung_system_problem(rss)
+        try:
+            SynchronousHyperbandBracketManager(rss, "min")
+            rejected = None
+        except AssertionError as e:
+            rejected = str(e)[:200]
+        ctx.count(("geom", sp), nontrivial=int(sp["reduction_factor"]) != sp["reduction_factor"] and len(rss[0]) >= 3)
+        ctx.h("geom", "accepted" if rejected is None else "rejected")
+        if prob is not None or rejected is not None:
+            lv = [x[1] for x in rss[0]]
+            dup_last = len(lv) >= 2 and lv[-1] == lv[-2]
+            ctx.violation("property", "SynchronousHyperbandRungSystem.geometric(%s, %s, %s, %s) returns %s: %s; "
+                          "SynchronousHyperbandBracketManager / SynchronousGeometricHyperbandScheduler %s" % (
+                              sp["min_resource"], sp["max_resource"], sp["reduction_factor"], sp["num_brackets"], rss[0],
+                              prob, "raise AssertionError: " + rejected if rejected else "accept it"),
+                          case=dict(kind="geom", spec=sp),
+                          signature=GEOM_SIG if dup_last else dict(GEOM_SIG, defect="invalid_rung_system"))
+
+
 # ------------------------------------------------------------------ manager sequences
 def gen_mgr_spec(rng):
     for _ in range(50):
@@ -658,8 +719,12 @@ def run_sched(ctx, replay):
         rng = _random.Random(sp["seed"])
         try:
             sch = build_scheduler(sp)
-        except AssertionError:
+        except AssertionError as e:
             ctx.h("sched_constructor", "rejected_rung_system")
+            if "geometric" in sp:
+                ctx.violation("property", "SynchronousGeometricHyperbandScheduler(%s) raises AssertionError for legal "
+                              "arguments: %s" % (sp["geometric"], str(e)[:200]), case=dict(kind="sched", spec=sp),
+                              signature=GEOM_SIG)
             continue
         ctx.h("sched_constructor", "ok")
         rss = [[(int(a), int(b)) for a, b in rs] for rs in sch.bracket_manager.bracket_rungs]
@@ -849,9 +914,11 @@ def run(ctx, replay=None):
                         case = json.load(open(os.path.join(cdir, f)))
                         ctx.h("corpus", case.get("kind"))
                         run_top(ctx, case)
+                        run_geom(ctx, case)
                         run_mgr(ctx, case)
                         run_sched(ctx, case)
         run_top(ctx, replay)
+        run_geom(ctx, replay)
         run_mgr(ctx, replay)
         run_sched(ctx, replay)
     finally:
